@@ -1256,6 +1256,15 @@ func runHist(t *testing.T, seed int64, n int, out *Out) {
 					stats["govVault/applied"]++
 				}
 			}
+			if os.Getenv("VERIF_GOVLP") != "" && h.r.Intn(12) == 0 {
+				// governance re-submits or removes a leverage-enabled pool
+				if sh := h.govLpShock(); sh != "" {
+					curShocks = append(curShocks, sh)
+					stats["govLp/applied"]++
+				} else {
+					stats["govLp/refused"]++
+				}
+			}
 			if os.Getenv("VERIF_GOVVEST") != "" && (b == 1 || h.r.Intn(30) == 0) {
 				// governance switches vest-now on and re-points what Eden vests into (early in the history, and now and then again)
 				if sh := h.govVestShock(); sh != "" {
